@@ -39,7 +39,7 @@ def run(tier):
         if key in seen:
             continue
         seen.add(key)
-        small = {k: ev[k] for k in ev if k not in ("S0", "S1", "S2", "S3", "q0", "q1", "q2", "q3")}
+        small = {k: ev[k] for k in ev if k not in ("Sfirst", "S0", "S1", "S2", "S3", "q0", "q1", "q2", "q3")}
         if "q0" in ev:
             small["queries_changed"] = sorted({k for k in ev["q0"] if not (ev["q0"].get(k) == ev["q1"].get(k) == ev["q2"].get(k) == ev["q3"].get(k))})[:12]
             f1, f2 = ev["S1"], ev["S2"]
